@@ -268,6 +268,7 @@ def get_key(repo: Repo, chk: Check) -> None:
         return "other"
 
     bad: t.List[str] = []
+    bad_root: t.List[str] = []
     rows = []
     kinds = set()
     try:
@@ -285,11 +286,15 @@ def get_key(repo: Repo, chk: Check) -> None:
                 bad.append(f"{where}: not returned although it covers (needless RPC / a non-covering answer {outs})")
             if not covers and "stored" in outs:
                 bad.append(f"{where}: returned although it does not cover")
+            # the loaded root key covers every position: with it in the cache a non-covered request is never a miss
+            if not covers and val.get("R") is not False and "none" in outs:
+                bad_root.append(f"{where}, root key loaded: _get_key reports a miss although the loaded root key covers every position of the L0 (the stored entry shadows it)")
     except ordertab.NotOrderPredicate as e:
         bad.append(f"cover test contains '{e}' which is not a comparison of stored and requested position")
     chk.table("_get_key outcome table (sign l1, sign l2, entry present, other atoms, outcomes)", rows)
     site1 = Site.of(f, construct="_get_key: stored envelope returned iff it covers")
     chk.ob("O1", site1, not bad, "stored envelope returned iff its position is >=lex the requested one (all sign vectors x entry present/absent x other conditions)" if not bad else "; ".join(sorted(set(bad))[:3]))
+    chk.ob("O2", Site.of(f, construct="_get_key: the loaded root key answers whatever is stored"), not bad_root, "with the root key loaded every request not covered by the stored entry is answered from the root key (all sign vectors x entry present/absent)" if not bad_root else "; ".join(sorted(set(bad_root))[:3]))
     chk.ob("O1", Site.of(f, construct="cached return sites"), "stored" in kinds, "a covering stored envelope is served from the cache" if "stored" in kinds else "no path returns the stored envelope: every call goes to the DC")
     chk.ob("O1", Site.of(f, construct="cache lookup"), "stored" in kinds, "lookup keyed by (root key id, target SD, L0)" if "stored" in kinds else "the cache lookup is not keyed by root key id, target SD and L0")
     root_returns = 0
